@@ -927,6 +927,11 @@ def _shrink_candidates(case):
             yield variant(files=f2)
     if case.get('level', 1) != 1:
         yield variant(level=1)
+    if case['cc'] or case['dc']:
+        yield variant(cc='', dc='')
+        if case['cc'] and case['dc']:
+            yield variant(cc='')
+            yield variant(dc='')
     if not case.get('ctl_final_nl', True):
         yield variant(ctl_final_nl=True)
     if not case['md5'].get('final_nl', True):
